@@ -219,17 +219,21 @@ func runNego(c *Case, b *built, cuts []int) (*obs, error) {
 	end := sv.Dial("c13")
 	cl := rawc.New(end)
 	defer cl.Close()
-	r := &srvRun{c: c, b: b, sv: sv, ctl: ctl, cl: cl, unread: end.Unread, replies: map[uint16][]byte{}}
+	r := &srvRun{c: c, b: b, sv: sv, ctl: ctl, cl: cl, unread: end.Unread, replies: map[uint16][]byte{}, prepTag: 61000}
 	ver := "9P2000"
 	if c.Dotu {
 		ver = "9P2000.u"
 	}
+	cl.Timeout = hangAfter
 	rv, err := cl.Version(g.SrvMsize, ver)
+	if err == rawc.ErrTimeout {
+		return nil, hangErr("prologue: Tversion unanswered")
+	}
 	if err != nil || rv.Type != ref9p.Rversion || rv.Msize != g.SrvMsize || cl.Dotu != c.Dotu {
 		return nil, fmt.Errorf("prologue: Tversion: %v %+v", err, rv)
 	}
-	if ra, err := cl.Attach(0, ref9p.NOFID, "alice", "", 1001); err != nil || ra.Type != ref9p.Rattach {
-		return nil, fmt.Errorf("prologue: Tattach: %v %+v", err, ra)
+	if err := r.batch([]*ref9p.Msg{{Type: ref9p.Tattach, Fid: 0, Afid: ref9p.NOFID, Uname: "alice", Nuname: 1001}}); err != nil {
+		return nil, err
 	}
 	if err := r.batch(b.prepWalk); err != nil {
 		return nil, err
@@ -306,7 +310,10 @@ func runNego(c *Case, b *built, cuts []int) (*obs, error) {
 		}
 		lastEv = ev
 		if idle >= idlePolls {
-			break // took every byte, idle, still connected
+			if go9pQuiescent("go9p.(*Conn).recv") {
+				break // took every byte, nothing runnable inside the library, still connected
+			}
+			idle = 0
 		}
 		if time.Since(start) > hangAfter {
 			return nil, hangErr("negotiation stream: the server neither hung up nor went idle")
@@ -360,7 +367,7 @@ func runNego(c *Case, b *built, cuts []int) (*obs, error) {
 			return nil, fmt.Errorf("request %s was dispatched although it follows (or is) the frame of %d bytes that exceeds the negotiated msize %d", who, g.OverSize, c.Msize)
 		}
 		if who != b.preds[i].who {
-			return nil, fmt.Errorf("request %d in dispatch order is %s, frame %d of the stream is %s", i, who, i, b.preds[i].who)
+			return nil, fmt.Errorf("request %d in dispatch order is %s, frame %d of the stream is %s (dispatched since the start of the stream: %v; before: %v)", i, who, i, b.preds[i].who, o.dispatch, ctl.dispatched()[:evStart])
 		}
 	}
 	if !hungup {
